@@ -404,6 +404,8 @@ pub enum Image {
     V0 { rows: Vec<ImageRow>, version_table: bool, version_row: bool },
     /// a database written by a newer erbium
     Newer { version: i64, rows: Vec<ImageRow> },
+    /// the same rows in the current schema (the reference an upgraded V0 image is compared with)
+    Current { rows: Vec<ImageRow> },
 }
 
 pub struct GenOpts {
